@@ -141,7 +141,9 @@ def run(ctx):
         raise CannotDecide('SpanExt::set_context impl')
     # the span-scoped carrier type: whatever set_context stores with Context::with_value and wraps an Instant (identified by use, not by name)
     carrier = None
-    for bb, t in setc.calls():
+    from .common import deep_bodies
+    setb = deep_bodies(F, setc)
+    for bb, t in [(b_, t_) for g_ in setb for b_, t_ in g_.calls()]:
         if callee_is(t, 'opentelemetry::Context::with_value', 'Context::with_value'):
             ty = strip_refs((t.get('arg_tys') or ['', ''])[1])
             a_ = F.adts.get(ty.split('<')[0])
@@ -191,12 +193,12 @@ def run(ctx):
     R.ob('C07.current', ('context::current', 'reads the span-scoped Deadline'), ok,
          'context::current() takes its deadline from the Deadline value stored in the current span\'s context (or the default)', [cur.loc(cur.d)], det)
     R.ob('C07.current', ('context::Deadline', 'default is the 10 s default'), ok_def and n_def >= 1, 'absent a request scope the deadline defaults to the same now + 10 s', [cur.loc(cur.d)], det)
-    dls = list(setc.aggregates(carrier))
+    dls = [(g_, i, j, s) for g_ in setb for i, j, s in g_.aggregates(carrier)]
     ok = len(dls) == 1
     if ok:
-        i, j, s = dls[0]
-        rs = P.root(P._field(('agg', setc.id, i, j), 0, 0))
-        ok = bool(rs) and all(r[0] == 'param' and r[2] == 2 and P.fpath(p) == (ctx_dl,) for r, p in rs)
+        g_, i, j, s = dls[0]
+        rs = P.root(P._field(('agg', g_.id, i, j), 0, 0), through_params=True, callers={x.id for x in setb})
+        ok = bool(rs) and all(r == ('param', setc.id, 2) and P.fpath(p) == (ctx_dl,) for r, p in rs)
     R.ob('C07.current', ('SpanExt::set_context', 'stores the request deadline'), ok, 'the span-scoped Deadline is the deadline of the context being installed', [setc.loc(setc.d)])
 
     # ------------------------------------------------------------------ client: request carries the caller's deadline
